@@ -868,9 +868,12 @@ def parse_tree_to_objgraph(
         """
         Depth-first model object processing.
         """
+        # The class of the object is looked up by its fully qualified name:
+        # it may belong to a grammar that is imported only indirectly.
+        obj_cls_name = getattr(model_obj, "_tx_fqn", model_obj.__class__.__name__)
         try:
             if metaclass_of_grammar_rule is None:
-                metaclass_of_grammar_rule = metamodel[model_obj.__class__.__name__]
+                metaclass_of_grammar_rule = metamodel[obj_cls_name]
         except KeyError as e:
             raise TextXSemanticError(
                 f'Unknown meta-class "{model_obj.__class__.__name__}".'
@@ -889,7 +892,7 @@ def parse_tree_to_objgraph(
 
         # enter recursive visit of attributes only, if the class of the
         # object being processed is a meta class of the current meta model
-        if model_obj.__class__.__name__ in metamodel:
+        if obj_cls_name in metamodel:
             if hasattr(model_obj, "_tx_fqn"):
                 current_metaclass_of_obj = metamodel[model_obj._tx_fqn]
             else:
